@@ -28,7 +28,8 @@ EXPLANATION = (
     "of Event-state and graph-structure writes. R7.5 loop-back edges and "
     "outside nodes are removed from the body and exactly one dummy entry "
     "and one dummy exit are added. R7.6 the loop event records the uids of "
-    "the dummy entry/exit/breaks that later phases look up.")
+    "the dummy entry/exit/breaks that later phases look up."
+    " Added: R7.6 the loop event records the body's entry/exit/break uids; R7.7 pruning from the root after the rewrite; R7.8 components keep their role across hand-offs; R7.9 a component revised after classification is revised before any phase reads it; R7.10 carving the body cuts only loop-back and boundary edges.")
 NOT_DECIDED = ["correctness of calc_components_of_loop and of the event-set "
                "rewriting", "in-place mutation of loop.break_events while "
                "iterating (recorded in DESIGN section 9, not armed)"]
